@@ -1065,6 +1065,38 @@ mutant('C19', 'c19-resource-over-capacity', RRES,
        "        if len(self.users) < self._capacity:\n            self.users.append(event)",
        "        if len(self.users) <= self._capacity:\n            self.users.append(event)",
        'G Resource._do_put', 'one user too many')
+mutant('C19', 'c19-count-loop-no-break', RBASE,
+       "        triggered = list(takewhile(self._do_get, self.get_queue))\n        del self.get_queue[:len(triggered)]",
+       "        served = 0\n        for get_event in self.get_queue:\n            if self._do_get(get_event):\n                served += 1\n        del self.get_queue[:served]",
+       'Q BaseResource._trigger_get', 'serving goes on behind a refused request but a prefix is removed')
+mutant('C19', 'c19-count-loop-off-by-one', RBASE,
+       "        triggered = list(takewhile(self._do_get, self.get_queue))\n        del self.get_queue[:len(triggered)]",
+       "        served = 0\n        for get_event in self.get_queue:\n            if not self._do_get(get_event):\n                break\n            served += 1\n        del self.get_queue[:served + 1]",
+       'Q BaseResource._trigger_get', 'the first refused request is dropped')
+mutant('C19', 'c19-count-loop-counts-refused', RBASE,
+       "        triggered = list(takewhile(self._do_get, self.get_queue))\n        del self.get_queue[:len(triggered)]",
+       "        served = 0\n        for get_event in self.get_queue:\n            served += 1\n            if not self._do_get(get_event):\n                break\n        del self.get_queue[:served]",
+       'Q BaseResource._trigger_get', 'the refused request is dropped')
+mutant('C19', 'c19-takewhile-other-queue', RBASE,
+       "        triggered = list(takewhile(self._do_get, self.get_queue))\n        del self.get_queue[:len(triggered)]",
+       "        triggered = list(takewhile(self._do_get, self.get_queue))\n        del self.put_queue[:len(triggered)]",
+       'Q BaseResource._trigger_get', 'served get requests remove put requests')
+twin('C19', 'c19-twin-count-loop', RBASE,
+     "        triggered = list(takewhile(self._do_get, self.get_queue))\n        del self.get_queue[:len(triggered)]",
+     "        do_get = self._do_get\n        served = 0\n        for get_event in self.get_queue:\n            if not do_get(get_event):\n                break\n            served += 1\n        del self.get_queue[:served]",
+     'counting loop instead of takewhile')
+mutant('C19', 'c19-filterstore-remove-while-scanning', RSTORE,
+       "        served = [event for event in self.get_queue if self._do_get(event)]\n        for event in served:\n            self.get_queue.remove(event)",
+       "        for event in self.get_queue:\n            if self._do_get(event):\n                self.get_queue.remove(event)",
+       'Q FilterStore._trigger_get', 'removing while iterating skips the next request')
+mutant('C19', 'c19-filterstore-removes-refused', RSTORE,
+       "        served = [event for event in self.get_queue if self._do_get(event)]",
+       "        served = [event for event in self.get_queue if not self._do_get(event)]",
+       'Q FilterStore._trigger_get', 'the refused requests are dropped, the served stay queued')
+twin('C19', 'c19-twin-filterstore-loop', RSTORE,
+     "        served = [event for event in self.get_queue if self._do_get(event)]",
+     "        served = []\n        for event in self.get_queue:\n            if self._do_get(event):\n                served.append(event)",
+     'comprehension as loop')
 twin('C19', 'c19-twin-guard-rearranged', RCONT,
      "        if self._capacity - self._level >= event.amount:",
      "        if self._level + event.amount <= self._capacity:",
